@@ -37,9 +37,15 @@ KINDS = [
     ('opt_str', ['optional', 'str'], ['value', 'None'], 's', None, 5, {}),
     ('aliased', 'int', ['value', '1'], 8, None, None, {'aliases': ['al']}),
     ('conv_float', 'float', ['value', '0.5'], 2.5, 2, 'x', {}),
+    # excluded from output, still an ordinary constructor argument and part of the set-field record
+    ('excluded', 'int', ['value', '2'], 9, None, 'x', {'exclude': True}),
+    # a mapping argument whose keys have different runtime types (all valid for the key type)
+    ('float_keys', ['dict', 'float', 'str'], ['factory', 'dict'], {1: 'a', 2.5: 'b', 4: 'c'}, None, [1], {}),
+    # a default the user wrote in unconverted form; the 'good' argument is that very object (1 is interned)
+    ('def_raw_int', 'float', ['value', '1'], 1, None, 'x', {}),
 ]
 NAMES = ['a', 'b', 'c']
-HOOKS = [None, 'count', 'raise']
+HOOKS = [None, 'count', 'raise', 'assign']
 
 
 def field_choices():
@@ -74,6 +80,9 @@ def make_spec(combo, fmt, hook):
     spec = dict(name='C14', opts={'in_format': fmt}, fields=fields)
     if hook == 'count':
         spec['post'] = 'count'
+    elif hook == 'assign':
+        spec['post'] = ['assign_self', NAMES[0]]
+        spec['opts']['frozen'] = False
     elif hook == 'raise':
         spec['post'] = ['raise_if', NAMES[0], {'int': '13', 'float': '13.0'}.get(fields[0]['type'], "'never'") if isinstance(fields[0]['type'], str) else "'never'", 'HookBoom']
     return spec
